@@ -125,6 +125,7 @@ type Frame struct {
 	call   ssa.CallInstruction // call in parent that created this frame
 	active map[*ssa.BasicBlock]*loopCtx
 	depth  int
+	defers []deferred
 	// for the root frame: snapshot of the state at entry (for old())
 }
 
@@ -145,6 +146,7 @@ func (f *Frame) clone() *Frame {
 	for k, v := range f.active {
 		n.active[k] = v
 	}
+	n.defers = append([]deferred(nil), f.defers...)
 	n.parent = f.parent.clone()
 	return &n
 }
